@@ -73,6 +73,7 @@ def inst_from_library(instance):
 class Hooks:
     def start(self, run): pass
     def reset(self, run): pass
+    def accepted_invalid(self, run, o, m): pass
     def before(self, run): pass
     def after(self, run, o, m): pass
     def end(self, run): pass
@@ -96,6 +97,27 @@ def run_history(ctx, case, hooks: Hooks, instance=None):
             hooks.reset(run)
             continue
         hooks.before(run)
+        if explicit is None and rng.random() < 0.08:
+            # a request the dispatcher has to refuse (ineligible in-range machine, operation that
+            # is not its job's next one); if it is accepted the schedule is no longer feasible and
+            # the contract layer reports it
+            rr = run.r
+            cand = []
+            for o2 in rr.ready():
+                cand += [(o2, m2) for m2 in range(rr.num_machines) if m2 not in rr.op_machines[o2]]
+            cand += [(o2, rr.op_machines[o2][0]) for o2 in rr.unscheduled() if not rr.is_ready(o2)]
+            if cand:
+                o2, m2 = rng.choice(cand)
+                ctx.count("refusable_requests_tried")
+                try:
+                    run.d.dispatch(run.ops[o2], m2)
+                    accepted = True
+                except Exception:
+                    accepted = False
+                if accepted:
+                    ctx.count("refusable_requests_accepted")
+                    hooks.accepted_invalid(run, o2, m2)
+                    return run
         if explicit is not None:
             o, m = explicit[k]
         else:
